@@ -1713,6 +1713,14 @@ impl DistributedTxCoordinator {
 
         let from_phase = tx.phase;
 
+        // The decision is made once: a transaction whose commit has been decided (and logged)
+        // can only be completed, never aborted.
+        if matches!(from_phase, TxPhase::Committing | TxPhase::Committed) {
+            return Err(ChainError::TransactionFailed(format!(
+                "transaction {tx_id} is already committing; cannot abort"
+            )));
+        }
+
         tracing::warn!(
             tx_id = tx_id,
             from_phase = ?from_phase,
@@ -2176,9 +2184,20 @@ impl DistributedTxCoordinator {
         })?;
 
         if commit {
-            // Can only commit if all votes are YES
-            if tx.all_yes() || matches!(tx.phase, TxPhase::Prepared | TxPhase::Committing) {
+            // Can only commit a transaction for which commit is decidable: every participant
+            // voted YES (phase Prepared) or commit was already decided (phase Committing).
+            if matches!(tx.phase, TxPhase::Prepared | TxPhase::Committing) {
+                // Log the decision and its completion before acting on it
+                self.log_wal_entry(&TxWalEntry::PhaseChange {
+                    tx_id,
+                    from: tx.phase,
+                    to: TxPhase::Committing,
+                })?;
                 tx.phase = TxPhase::Committing;
+                self.log_wal_entry(&TxWalEntry::TxComplete {
+                    tx_id,
+                    outcome: TxOutcome::Committed,
+                })?;
                 // Release locks
                 for vote in tx.votes.values() {
                     if let PrepareVote::Yes { lock_handle, .. } = vote {
@@ -2195,8 +2214,22 @@ impl DistributedTxCoordinator {
                 )));
             }
         } else {
-            // Abort the transaction
+            // Abort the transaction, unless commit was already decided
+            if matches!(tx.phase, TxPhase::Committing | TxPhase::Committed) {
+                return Err(ChainError::TransactionFailed(format!(
+                    "transaction {tx_id} is already committing; cannot abort"
+                )));
+            }
+            self.log_wal_entry(&TxWalEntry::PhaseChange {
+                tx_id,
+                from: tx.phase,
+                to: TxPhase::Aborting,
+            })?;
             tx.phase = TxPhase::Aborting;
+            self.log_wal_entry(&TxWalEntry::TxComplete {
+                tx_id,
+                outcome: TxOutcome::Aborted,
+            })?;
             for vote in tx.votes.values() {
                 if let PrepareVote::Yes { lock_handle, .. } = vote {
                     self.lock_manager
